@@ -141,6 +141,22 @@ func vh_candidate() {
 		} else {
 			vCover("candidate.prevote-higher-term")
 			vAssert(post.state != Leader, "C14.candidate.higher-term-no-leader")
+			if post.state == Follower {
+				// the higher term reported by a peer is adopted (durably), so that the cluster's terms converge
+				adopted := false
+				for i, s := range servers {
+					if i == selfIdx || s.Suffrage != Voter {
+						continue
+					}
+					p := pres[s.ID]
+					if p.err == 0 && p.term > pre.term+1 && post.term == p.term {
+						adopted = true
+					}
+				}
+				vAssert(adopted && post.stTerm == post.term, "C12.candidate.higher-term-from-prevote-adopted")
+				vAssert(adopted && post.stTerm == post.term, "C01.candidate.higher-term-from-prevote-adopted")
+				vAssert(adopted && post.stTerm == post.term, "C06.candidate.higher-term-from-prevote-adopted")
+			}
 		}
 	}
 	vAssert(post.term >= pre.term && post.stTerm == post.term, "C06.candidate.term-persisted-and-mono")
@@ -166,4 +182,36 @@ func vh_setup_leader() {
 	}
 	vAssert(r.leaderState.inflight.Len() == 0 && len(r.leaderState.replState) == 0 && len(r.leaderState.notify) == 0, "C08.setup.empty-leader-state")
 	vReach("setup.end")
+}
+
+// vh_candidate_timeout: an election round that ends by the election timer
+// (nobody answers favourably): runCandidate returns still a candidate; the
+// leadership-transfer privilege must be gone and a pre-vote round must not have moved the term.
+func vh_candidate_timeout() {
+	r, env := vNewRaft("c", vRaftOpts{n: 2})
+	vAssume(vInvBasic(r, env))
+	servers := r.configurations.latest.Servers
+	r.localID, r.localAddr = servers[0].ID, servers[0].Address
+	vAssume(servers[0].Suffrage == Voter && servers[1].Suffrage == Voter)
+	r.state = Candidate
+	r.preVoteDisabled = vChoose("preVoteDisabled", 0, 1) == 1
+	transfer := vChoose("transfer", 0, 1) == 1
+	r.candidateFromLeadershipTransfer.Store(transfer)
+	env.trans.onVote = func(id ServerID, a *RequestVoteRequest, resp *RequestVoteResponse) error { return errInjected }
+	env.trans.onPreVote = func(id ServerID, a *RequestPreVoteRequest, resp *RequestPreVoteResponse) error { return errInjected }
+	pre := vSnap(r, env)
+	vSpawnPolicy(true)
+	vTimerMode(1) // the election timer fires
+	vRunUntilBlocked(r.runCandidate)
+	post := vSnap(r, env)
+	vAssert(!r.candidateFromLeadershipTransfer.Load(), "C14.timeout.transfer-privilege-reset-on-every-exit")
+	if !r.preVoteDisabled && !transfer {
+		vCover("timeout.prevote-round")
+		vAssert(post.term == pre.term && post.stableCalls == pre.stableCalls, "C14.timeout.isolated-prevote-round-keeps-term")
+	} else {
+		vCover("timeout.real-election-round")
+		vAssert(post.term == pre.term+1, "C14.timeout.one-term-per-real-round")
+	}
+	vAssert(post.state == Candidate, "C14.timeout.still-candidate")
+	vReach("timeout.end")
 }
